@@ -233,7 +233,7 @@ Definition parse_canon_nat (s : bytes) : option Z :=
   end.
 
 (* strings.Fields on ASCII data: split on runs of space, \t \n \v \f \r *)
-Definition is_space (c : Z) : bool := (c =? 32) || ((9 <=? c) && (c <=? 13)).
+Definition is_space (c : Z) : bool := (c =? 32) || (c =? 9) || (c =? 10).   (* interp.splitBlanks: space, tab, newline *)
 Fixpoint split_ws_go (s : bytes) (w : bytes) (acc : list bytes) : list bytes :=
   match s with
   | [] => rev (match w with [] => acc | _ => rev w :: acc end)
